@@ -201,6 +201,9 @@ def eval_case(ctx: Ctx, c: dict):
             if want is not None and base is not None:
                 B = dns.name.Name(base)
                 st, sv = outcome(lambda: dns.name.Name(full).to_styled_text(dns.name.NameStyle(origin=B, relativize=rel)), lambda x: x)
+                for om in (False, True):
+                    so, _ = outcome(lambda: dns.name.Name(full).to_styled_text(dns.name.NameStyle(omit_final_dot=om, origin=B, relativize=rel)), lambda x: hx(x.encode("ascii")))
+                    ctx.corr(f"n.styled {enc_labels(full)} {int(om)} {enc_labels(base)} {int(rel)}", so, c)
                 wt = dns.name.Name(want).to_text() if wf(want) else None
                 if wt is not None and st != "ok " + wt:
                     ctx.fail("C01/to_styled_text/relativity", f"Name({full!r}).to_styled_text(origin={base!r}, relativize={rel}) -> {st[:120]}, expected {wt[:120]!r}", rep)
@@ -209,6 +212,7 @@ def eval_case(ctx: Ctx, c: dict):
             import pickle as _pickle
             if variant == "omit":
                 tt, _ = outcome(lambda: n.to_text(omit_final_dot=True), lambda x: x)
+                ctx.corr(f"n.styled {enc_labels(labels)} 1 none 0", "ok " + hx(tt[3:].encode("ascii")) if tt.startswith("ok ") else tt, c)
                 expt = text[:-1] if (n.is_absolute() and len(labels) > 1) else text
                 if tt != "ok " + expt:
                     ctx.fail("C01/to_text/omit_final_dot", f"Name({labels!r}).to_text(omit_final_dot=True) -> {tt[:120]}", rep)
@@ -658,7 +662,7 @@ def replay(ctx: Ctx, obj: dict):
     return [f.what for f in ctx.failures]
 
 LEVEL = {
-    "text": "Lean 4 theorems (29, lean/Props/C01.lean) over an executable model of dns/name.py and the name part of dns/wirebase.py: text round trip for every legal name over all 256 octet values (with and without origin: the result is the name, or validate(name ++ origin), i.e. it raises exactly when the limits are exceeded); uncompressed wire round trip at any offset inside any surrounding bytes; the decoder is total (accepted by Lean's termination checker on the measure (biggest_pointer, bytes left)) and every successful decode is a derivation of a relational description whose pointer rule demands target < bound, so it only follows pointers to strictly earlier offsets; whatever is decoded is well formed, absolute and inside the buffer; the bytes-returning and the file-writing path of to_wire with an origin (with and without a compression table) write exactly name + origin and raise NameTooLong exactly beyond 255 octets (toWireO_roundtrip, toWireF_plain_roundtrip, toWireF_closed, toWireF_compress_sound); compressed encoding against *any* sound table at *any* offset (also beyond 0x3FFF) only appends, keeps every table entry decodable to its key, and decodes back to the name up to ASCII case (byte-identical under an explicit case-consistency hypothesis); the constructor accepts exactly the well-formed label lists and every name-producing operation (concatenate, relativize, derelativize, parent, split, successor, predecessor) returns a well-formed name or raises. The model is tied to the code by a differential correspondence check over every modelled function (compiled Lean driver vs dnspython in-process) and by constants (escaped set, 63/255/64/192/0x3FFF/0xC000) regenerated from the working tree, fed to the theorems and pinned to the property's numbers by limits_are_rfc1035. Direct oracles (outside the model) cover Tokenizer.get_name with origin/relativize/relativize_to, styled text and omit_final_dot, str()/copy/pickle/__setstate__, canonicalize, the +/-/choose_relativity aliases, str/mixed/tuple label inputs of the constructor (UTF-8 octet limits), bytes-vs-str input of from_text and agreement of from_unicode with from_text where IDNA is not involved.",
+    "text": "Lean 4 theorems (31, lean/Props/C01.lean) over an executable model of dns/name.py and the name part of dns/wirebase.py: text round trip for every legal name over all 256 octet values (with and without origin: the result is the name, or validate(name ++ origin), i.e. it raises exactly when the limits are exceeded); uncompressed wire round trip at any offset inside any surrounding bytes; the decoder is total (accepted by Lean's termination checker on the measure (biggest_pointer, bytes left)) and every successful decode is a derivation of a relational description whose pointer rule demands target < bound, so it only follows pointers to strictly earlier offsets; whatever is decoded is well formed, absolute and inside the buffer; the bytes-returning and the file-writing path of to_wire with an origin (with and without a compression table) write exactly name + origin and raise NameTooLong exactly beyond 255 octets (toWireO_roundtrip, toWireF_plain_roundtrip, toWireF_closed, toWireF_compress_sound); compressed encoding against *any* sound table at *any* offset (also beyond 0x3FFF) only appends, keeps every table entry decodable to its key, and decodes back to the name up to ASCII case (byte-identical under an explicit case-consistency hypothesis); the constructor accepts exactly the well-formed label lists and every name-producing operation (concatenate, relativize, derelativize, parent, split, successor, predecessor) returns a well-formed name or raises. The model is tied to the code by a differential correspondence check over every modelled function (compiled Lean driver vs dnspython in-process) and by constants (escaped set, 63/255/64/192/0x3FFF/0xC000) regenerated from the working tree, fed to the theorems and pinned to the property's numbers by limits_are_rfc1035. omit_final_dot and styled text are modelled (fromText_toTextOmit: the dot-less text of an absolute name read with the root origin is the name; toStyledText_spec). Direct oracles (outside the model) cover Tokenizer.get_name with origin/relativize/relativize_to, str()/copy/pickle/__setstate__, canonicalize, the +/-/choose_relativity aliases, str/mixed/tuple label inputs of the constructor (UTF-8 octet limits), bytes-vs-str input of from_text and agreement of from_unicode with from_text where IDNA is not involved.",
     "note": "Trusted: Lean kernel + propext/Classical.choice/Quot.sound; the statements in lean/Props/C01.lean; the correspondence harness and its generators (differential testing bounds the tie); harness/extract.py. IDNA/unicode paths and to_unicode are outside; omit_final_dot, styled text, pickling and the tokenizer route are oracle-only (the tokenizer composition — a printed name is one identifier token — is proved in C09).",
     "technique": "Lean 4 proof (induction over label lists / escape automaton, well-founded recursion, relational decoder spec, compression-table invariant) + model-vs-implementation correspondence",
     "design_ref": "DESIGN.md §7 C01, §13.3",
